@@ -477,4 +477,138 @@ theorem caStep_serial (s : CaState) (idx : Nat) (cmd : CaCmd) :
 theorem nextSerial_gt (s : CaState) (k : Nat) (h : s.serial = some k) : k < nextSerial s := by
   simp [nextSerial, h]
 
+/-! ### re-rendered agent identities -/
+
+theorem splitSlash_slash (x y : Bytes) : splitSlash (x ++ 47 :: y) = splitSlash x ++ splitSlash y := by
+  induction x with
+  | nil =>
+    simp only [List.nil_append]
+    cases hy : splitSlash y with
+    | nil => exact absurd hy (splitSlash_ne_nil y)
+    | cons seg rest =>
+      show splitSlash (47 :: y) = splitSlash [] ++ (seg :: rest)
+      unfold splitSlash
+      simp [hy]
+  | cons c cs ih =>
+    simp only [List.cons_append]
+    cases hcs : splitSlash cs with
+    | nil => exact absurd hcs (splitSlash_ne_nil cs)
+    | cons seg rest =>
+      rw [splitSlash.eq_def (c :: cs)]
+      rw [splitSlash.eq_def (c :: (cs ++ 47 :: y))]
+      simp only [ih, hcs, List.cons_append]
+      split <;> rfl
+
+theorem splitSlash_singleton (x y : Bytes) (h : splitSlash x = [y]) : x = y := by
+  induction x generalizing y with
+  | nil => simpa [splitSlash] using h
+  | cons c cs ih =>
+    cases hcs : splitSlash cs with
+    | nil => exact absurd hcs (splitSlash_ne_nil cs)
+    | cons seg rest =>
+      rw [splitSlash.eq_def] at h
+      simp only [hcs] at h
+      split at h
+      · simp at h
+      · simp only [List.cons.injEq] at h
+        obtain ⟨rfl, rfl⟩ := h
+        rw [ih seg hcs]
+
+theorem matchService_agent_none (rest : List Bytes) (e : Bytes) : matchService (e :: bAgent :: rest) = none := by
+  unfold matchService
+  split
+  · rename_i heq; simp only [List.cons.injEq] at heq; obtain ⟨_, rfl, _⟩ := heq; simp [bAgent, bNs]
+  · rename_i heq; simp only [List.cons.injEq] at heq; obtain ⟨_, rfl, _⟩ := heq; simp [bAgent, bAp]
+  · rfl
+
+theorem matchGateway_agent_none (rest : List Bytes) (e : Bytes) : matchGateway (e :: bAgent :: rest) = none := by
+  unfold matchGateway
+  split
+  · rename_i heq; simp only [List.cons.injEq] at heq; obtain ⟨_, rfl, _⟩ := heq; simp [bAgent, bGateway]
+  · rename_i heq; simp only [List.cons.injEq] at heq; obtain ⟨_, rfl, _⟩ := heq; simp [bAgent, bAp]
+  · rfl
+
+theorem matchServer_client_none (rest : List Bytes) (e : Bytes) : matchServer (e :: bAgent :: bClient :: rest) = none := by
+  unfold matchServer
+  split
+  · rename_i heq; simp only [List.cons.injEq] at heq; obtain ⟨_, _, rfl, _⟩ := heq; simp [bClient, bServer]
+  · rfl
+
+theorem matchAgent_inv (rest : List Bytes) (e ap dc node : Bytes)
+    (h : matchAgent (e :: bAgent :: bClient :: bDc :: rest) = some (ap, dc, node)) :
+    rest = [dc, bId, node] ∧ ap = [] := by
+  unfold matchAgent at h
+  split at h
+  · rename_i e' a c d dc' i node' heq
+    simp only [List.cons.injEq] at heq
+    obtain ⟨_, _, _, _, hrest⟩ := heq
+    split at h
+    · rename_i hc
+      simp only [Option.some.injEq, Prod.mk.injEq] at h
+      obtain ⟨rfl, rfl, rfl⟩ := h
+      simp [hrest, hc.2.2.2.2.1]
+    · simp at h
+  · rename_i heq
+    simp only [List.cons.injEq] at heq
+    split at h
+    · rename_i hc
+      have : bAgent = bAp := by rw [← hc.2.1]; exact heq.2.1
+      exact absurd this (by decide)
+    · simp at h
+  · simp at h
+
+
+theorem splitSlash_agent_path (dc node : Bytes) :
+    splitSlash (joinSegs [bAgent, bClient, bDc, dc, bId, node])
+      = [] :: bAgent :: bClient :: bDc :: (splitSlash dc ++ bId :: splitSlash node) := by
+  have e : joinSegs [bAgent, bClient, bDc, dc, bId, node]
+      = [] ++ 47 :: (bAgent ++ 47 :: (bClient ++ 47 :: (bDc ++ 47 :: (dc ++ 47 :: (bId ++ 47 :: node))))) := by
+    simp [joinSegs]
+  rw [e]
+  simp only [splitSlash_slash]
+  have h1 : splitSlash bAgent = [bAgent] := by decide
+  have h2 : splitSlash bClient = [bClient] := by decide
+  have h3 : splitSlash bDc = [bDc] := by decide
+  have h4 : splitSlash bId = [bId] := by decide
+  simp [h1, h2, h3, h4, splitSlash]
+
+/-- Re-rendering an agent identity from its decoded fields (what the trust-domain fix-up of
+    `SignCertificate` does) can never produce a URI that parses to anything but that very agent:
+    for ALL byte strings, '/' inside the fields included, parsing the rendered URI either fails or
+    gives back the same datacenter and node. -/
+theorem agent_render_parse (td ap dc node : Bytes) (id : Id)
+    (h : parseId (uriOf (.agent td ap dc node)) = .ok id) : id = .agent td bDefault dc node := by
+  unfold parseId at h
+  simp only [uriOf, pathOf, hostOf] at h
+  simp only [ne_eq, not_true_eq_false, decide_false, if_false] at h
+  rw [splitSlash_agent_path, matchService_agent_none] at h
+  simp only at h
+  split at h
+  · rename_i ap' dc' node' hm
+    obtain ⟨hrest, rfl⟩ := matchAgent_inv _ _ _ _ _ hm
+    have hd : splitSlash dc = [dc'] ∧ splitSlash node = [node'] := by
+      cases hx : splitSlash dc with
+      | nil => exact absurd hx (splitSlash_ne_nil dc)
+      | cons x1 xs =>
+        rw [hx] at hrest
+        cases xs with
+        | nil =>
+          simp only [List.cons_append, List.nil_append, List.cons.injEq] at hrest
+          exact ⟨by rw [hrest.1], hrest.2.2⟩
+        | cons x2 xs' =>
+          simp only [List.cons_append, List.cons.injEq] at hrest
+          obtain ⟨_, _, h3⟩ := hrest
+          cases xs' with
+          | nil =>
+            simp only [List.nil_append, List.cons.injEq] at h3
+            exact absurd h3.2 (splitSlash_ne_nil node)
+          | cons x3 xs'' => simp at h3
+    have e1 := splitSlash_singleton dc dc' hd.1
+    have e2 := splitSlash_singleton node node' hd.2
+    subst e1 e2
+    simp [decSeg, apOrDefault] at h
+    exact h.symm
+  · rw [matchGateway_agent_none, matchServer_client_none] at h
+    simp [joinSegs] at h
+
 end CV.Ca
